@@ -68,6 +68,8 @@ DIMS1 = collections.OrderedDict([
                 'prom2', 'auto_idx']),
     ('nl', ['default', 'Newton', 'NLBGS', 'NLBJ', 'Broyden']),
     ('noasm', [False, True]),
+    ('approx_sub', [None, 'cs', 'fd']),
+    ('nlopt', [None, 'aitken', 'aitken_apply', 'apply']),
 ])
 
 OUTS = ['c1.y', 'c2.y', 'c3.y']
@@ -116,7 +118,7 @@ def _cls(cfg):
     if cfg.get('ivc'):
         parts.append('ivc=%d' % cfg['ivc'])
     for n in ('topo', 'hier', 'kinds', 'nl', 'ln', 'jac', 'partials', 'units', 'wiring', 'mode',
-              'noasm'):
+              'noasm', 'approx_sub', 'nlopt'):
         v = cfg.get(n)
         if v not in (None, 'default', 'flat', 'lin', 'dense', 'none', 'plain', 'fwd', False):
             parts.append('%s=%s' % (n, v))
@@ -151,6 +153,22 @@ def check_case(cfg):
         spec, why = orig(c)
         if spec is not None and cfg.get('noasm'):
             spec['groups'].setdefault(spec['solver_group'], {})['no_assemble'] = True
+        if spec is not None and cfg.get('nlopt'):
+            g = spec['groups'].get(spec['solver_group'], {})
+            if g.get('nl') != 'NLBGS':
+                return None, 'nlopt needs NLBGS'
+            g['nl_opts'] = {'use_aitken': cfg['nlopt'].startswith('aitken'),
+                            'use_apply_nonlinear': cfg['nlopt'].endswith('apply')}
+        if spec is not None and cfg.get('approx_sub'):
+            # the subgroup approximates its own (semi-total) derivatives
+            if not any(cc['path'].startswith('G.') for cc in spec['comps']):
+                return None, 'approx_sub needs a subgroup'
+            if cfg.get('nl') in ('Newton', 'Broyden'):
+                return None, 'approx_sub under a root Newton/Broyden solver not generated'
+            m = cfg['approx_sub']
+            spec['groups'].setdefault('G', {})['approx'] = (
+                {'method': 'cs'} if m == 'cs' else {'method': 'fd', 'form': 'central', 'step': 1e-4})
+            spec['force_alloc_complex'] = True
         return spec, why
 
     def extra(prob, spec, ref, U, V):
